@@ -324,7 +324,7 @@ def last_field(e):
             return (e.get('rec'), e['f'])
         if k == 'idx':
             e = unwrap(e['b'])
-        elif k == 'deref':
+        elif k in ('deref', 'addr'):
             e = unwrap(e['e'])
         else:
             return None
@@ -1037,7 +1037,7 @@ def _eval(e, env, prog=None):
     return TOP
 
 
-def abstract_run(fn, init_env, tracked=None, start=None, call_effect=None, max_states=20000):
+def abstract_run(fn, init_env, tracked=None, start=None, call_effect=None, max_states=20000, barrier=()):
     """Explore fn's CFG with a constant environment over `tracked` expression
     strings (default: keys of init_env).  Branches whose condition evaluates
     to a constant follow only the feasible edge; stores to a tracked
@@ -1052,6 +1052,7 @@ def abstract_run(fn, init_env, tracked=None, start=None, call_effect=None, max_s
     sb = fn.entry if start is None else start
     work = [(sb, tuple(sorted(init_env.items())))]
     n = 0
+    first = True
     while work:
         bid, envt = work.pop()
         if (bid, envt) in seen:
@@ -1061,6 +1062,10 @@ def abstract_run(fn, init_env, tracked=None, start=None, call_effect=None, max_s
         if n > max_states:
             raise AnalysisBroken('abstract_run: state explosion in %s' % fn.name)
         env = dict(envt)
+        if bid in barrier and not first:
+            terms.append(('barrier', env, bid))
+            continue
+        first = False
         b = fn.blocks[bid]
         for ev in b.events:
             visits.append((ev, dict(env)))
@@ -1099,10 +1104,10 @@ def abstract_run(fn, init_env, tracked=None, start=None, call_effect=None, max_s
                         else:
                             env[k2] = v2
         if b.noreturn:
-            terms.append(('noreturn', dict(env)))
+            terms.append(('noreturn', dict(env), bid))
             continue
         if bid == fn.exit:
-            terms.append(('exit', dict(env)))
+            terms.append(('exit', dict(env), bid))
             continue
         cv = _eval(b.cond, env) if b.cond is not None else TOP
         for (t, lab) in b.succs:
